@@ -218,7 +218,7 @@ def bcdFromStr (text : List Char) : PyRes (Nat × Nat × Nat) :=
          | .ok z => .ok (x, y, z))
   | _ => .error .spsdk
 
-/-- `str(BcdVersion3(major, minor, service))` (the constructor only admits valid BCD numbers) -/
+/-- `str(BcdVersion3(major, minor, service))` (the constructor only accepts valid BCD numbers) -/
 def bcdStr (v : Nat × Nat × Nat) : List Char :=
   bcdToDigits v.1 ++ '.' :: bcdToDigits v.2.1 ++ '.' :: bcdToDigits v.2.2
 
